@@ -3,6 +3,7 @@ runner Ops/Multi.v; closed-world theorems over the timer-firing simulator
 Ops/TimedSim.v (Props/C17.v); tie: K2 multi-source port-level replay with the
 proxy scheduler (harness/k2m.py, harness/timed_table.py); oracle: below, a
 direct reading of the property statement on the implementation's log."""
+import sched_prec as sp
 import timed_extra as te
 import timed_table as tt
 from timed_table import view, common_timed, elems, terminal, src_view
@@ -282,6 +283,8 @@ def run(chk):
     tt.closed_world(chk, "C17", NAMES)
     chk.cov["boundary_fates_observed"] = {k[0]: sorted(s) for k, s in BOUNDARY_FATE.items()}
     te.run_families(chk, "C17", FAMILY_COUNTS)
+    # scheduler precedence (harness/sched_prec.py): operator scheduler vs subscribe-time scheduler vs default
+    sp.run_family(chk, "C17", 600, 6000)
     chk.cov["rule"] = ("per operator: seeded instances (durations / due times 0/5/10/20 ms as float seconds, timedelta "
                        "or absolute datetime incl. one in the past; timeout with and without fallback; scheduler "
                        "passed to the operator or to subscribe; mapper tables indexed by invocation, 12% raising) x "
@@ -303,6 +306,7 @@ def run(chk):
                        "(inside subscribe() or through the operator's scheduler: of(), throw()), windows 0 / 5 / 10 and "
                        "absolute times incl. one in the past -- at the boundary every prefix / suffix / all-or-nothing "
                        "outcome is accepted; same-instant orders the text leaves open are skipped as ties (counted)")
+    chk.cov["rule"] += sp.RULE
     chk.cov["operators_modelled"] = NAMES
     return chk.finish(trusted_extra=[
         "multi-source K2 driver harness/k2m.py with its proxy scheduler (integer-millisecond virtual clock, records "
@@ -317,11 +321,14 @@ def run(chk):
         "harness/timed_table.py run_case/warm_up: the warm-up subscription and the clock offset are applied inside "
         "the build callback handed to k2m.run_multi (the harness state is wiped as k2m does after its own warm-up)",
         "harness/timed_extra.py: oracle-only families with their own hand-made hot source, TestScheduler driver and "
-        "references written from the property text (no Coq model behind them)"],
+        "references written from the property text (no Coq model behind them)",
+        sp.TRUSTED],
         assumptions=["timelines are in integer milliseconds; datetime/timedelta arithmetic is exact on them"])
 
 
 def replay(chk, path):
+    if sp.is_replay(path):
+        return sp.replay("C17", path)
     if te.is_family_replay(path):
         return te.replay_family("C17", path)
     return tt.replay_cases("C17", oracle, path, reset=BOUNDARY_FATE.clear)
